@@ -1,8 +1,213 @@
-(* C17 — Group execution honours each strategy's contract (first cut; extended below). *)
-From SC Require Import Base.Prelude Group.Exec Group.C17Judge.
+(* C17 — Group execution honours each strategy's contract.
+   Theorems only; proofs live in Group/*Proofs.v.
 
+   Vocabulary (Group/Exec.v, Group/C17Judge.v, Group/ContractProofs.v):
+     ms            the members: outcome (Ok | Fail | FailMsg) and whether the member watches its context
+     order         the completion order, a permutation of the member indices (is_perm)
+     exec a ms order   the step-by-step model of exec.go for the API entered (AExecute strategy |
+                   AUpTo budget | AOne | AFast | ARace): what is returned, who was invoked, at which
+                   step the context was cancelled, at which step the call returned, what each
+                   cancellation-aware member saw, goroutines left behind
+     contract      the closed-form contract the judge evaluates on observations (never runs exec)
+     failed / succeeded ms i, nfails ms l (number of failing members among l), first_in f order i
+                   (i is the first element of order with f), zi i = i+1 (member i's error / message),
+                   plain_results (every member's message at its own index), single_at (one message
+                   at its index), all_plain ms (no member watches its context). *)
+From SC Require Import Base.Prelude Group.Exec Group.C17Judge Group.ExecLemmas Group.ExecProofs
+  Group.ContractProofs Group.ExecProc Group.ExecProcProofs.
+
+(* The model equals the contract for EVERY member count, outcome vector and completion order.
+   _partial: for the strategies built on ExecuteUpTo (All, Most, Any, Unspecified, ExecuteUpTo
+   itself) the members are assumed not to watch their context — which is the quantifier of the
+   property statement ("any mix of successes and failures completing in any order").  ExecuteOne /
+   Fast / Race are covered with cancellation-aware members too.  Missing: ExecuteUpTo with
+   cancellation-aware members (they return a context error once the budget is exceeded); that case
+   is compared with the contract by the correspondence run only (exhaustive for n <= 4, random to 8). *)
+Theorem C17_model_meets_contract_partial : forall a ms order,
+  is_perm order (List.length ms) -> (upto_api a = true -> all_plain ms) ->
+  exec a ms order = contract a ms order.
+Proof. exact exec_meets_contract. Qed.
+Print Assumptions C17_model_meets_contract_partial.
+
+(* ExecuteUpTo, any budget k: results at the members' own indices; fails exactly when more than
+   max(k,0) members fail; the error is that of the first failing member in completion order; does not
+   return before every member has (step n); every member is invoked; the context is cancelled at the
+   first step at which the failures so far exceed the budget — i.e. as soon as the outcome is
+   decided — and otherwise only when the call returns. *)
+Theorem C17_upto_contract : forall k ms order, all_plain ms -> is_perm order (List.length ms) ->
+  let x := exec (AUpTo k) ms order in
+  exists err,
+    x_ret x = RSlice (plain_results ms) err /\
+    (err <> 0 <-> Z.max k 0 < nfails ms (members ms)) /\
+    (err <> 0 -> exists i, first_in (failed ms) order i /\ err = zi i) /\
+    x_retstep x = Z.of_nat (List.length ms) /\ x_calls x = all_calls ms /\ x_leak x = 0 /\
+    (ms <> [] ->
+     (exists c, decision_step k ms order c /\ x_cancel x = Z.of_nat c) \/
+     ((forall c, (1 <= c <= List.length ms)%nat -> ~ Z.max k 0 < nfails ms (firstn c order)) /\
+      x_cancel x = Z.of_nat (List.length ms))).
+Proof. exact upto_props. Qed.
+Print Assumptions C17_upto_contract.
+
+(* All (also Unspecified and every unknown strategy number) fails exactly when some member fails *)
+Theorem C17_all_fails_iff_some_member_fails : forall s ms order,
+  all_plain ms -> is_perm order (List.length ms) -> (s <> 2 /\ s <> 3 /\ s <> 4 /\ s <> 5 /\ s <> 6) ->
+  exists err, x_ret (exec (AExecute s) ms order) = RSlice (plain_results ms) err /\
+    (err <> 0 <-> exists i, (i < List.length ms)%nat /\ failed ms i = true).
+Proof. exact all_fails_iff. Qed.
+Print Assumptions C17_all_fails_iff_some_member_fails.
+
+(* Most fails exactly when more than half fail *)
+Theorem C17_most_fails_iff_more_than_half_fail : forall ms order,
+  all_plain ms -> is_perm order (List.length ms) ->
+  exists err, x_ret (exec (AExecute 2) ms order) = RSlice (plain_results ms) err /\
+    (err <> 0 <-> Z.of_nat (List.length ms) < 2 * nfails ms (members ms)).
+Proof. exact most_fails_iff. Qed.
+Print Assumptions C17_most_fails_iff_more_than_half_fail.
+
+(* Any fails exactly when all (of at least one) fail *)
+Theorem C17_any_fails_iff_all_fail : forall ms order,
+  all_plain ms -> is_perm order (List.length ms) ->
+  exists err, x_ret (exec (AExecute 3) ms order) = RSlice (plain_results ms) err /\
+    (err <> 0 <-> (ms <> [] /\ forall i, (i < List.length ms)%nat -> failed ms i = true)).
+Proof. exact any_fails_iff. Qed.
+Print Assumptions C17_any_fails_iff_all_fail.
+
+(* One: members are called in index order up to the first success; its result and index are
+   returned; if all fail every member was called and the first error recorded (member 0's) is
+   returned; no context is cancelled *)
+Theorem C17_one_contract : forall ms order, is_perm order (List.length ms) ->
+  let x := exec AOne ms order in
+  (forall k, first_in (succeeded ms) (members ms) k ->
+     x_ret x = RSingle (zi k) (Z.of_nat k) 0 /\ x_calls x = map Z.of_nat (seq 0 (S k))) /\
+  ((forall i, (i < List.length ms)%nat -> succeeded ms i = false) ->
+     x_calls x = all_calls ms /\ x_ret x = RSingle 0 0 (match ms with [] => 0 | _ => zi 0 end)) /\
+  x_cancel x = -1 /\ x_leak x = 0.
+Proof. exact one_props. Qed.
+Print Assumptions C17_one_contract.
+
+(* Fast: the first success in completion order is returned at the step it happens, the context is
+   cancelled at that step and every cancellation-aware member still running sees it; if all fail the
+   first error observed is returned after the last member; nothing is left running *)
+Theorem C17_fast_contract : forall ms order, is_perm order (List.length ms) ->
+  let x := exec AFast ms order in
+  (forall i, first_in (succeeded ms) order i ->
+     x_ret x = RSingle (zi i) (Z.of_nat i) 0 /\
+     x_retstep x = Z.of_nat (S (pos i order)) /\ x_cancel x = Z.of_nat (S (pos i order)) /\
+     (forall j, (j < List.length ms)%nat -> aware_at ms j = true -> (pos i order < pos j order)%nat ->
+                nth j (x_saw x) 0 = Z.of_nat (S (pos i order)))) /\
+  ((forall i, (i < List.length ms)%nat -> succeeded ms i = false) ->
+     x_retstep x = Z.of_nat (List.length ms) /\
+     match order with
+     | [] => x_ret x = RSingle 0 0 no_members_err
+     | i :: _ => x_ret x = RSingle 0 (Z.of_nat i) (zi i)
+     end) /\
+  x_leak x = 0 /\ x_calls x = all_calls ms.
+Proof. exact fast_props. Qed.
+Print Assumptions C17_fast_contract.
+
+Theorem C17_fast_errs_iff_every_member_fails : forall ms order, is_perm order (List.length ms) ->
+  forall msg idx err, x_ret (exec AFast ms order) = RSingle msg idx err ->
+  (err <> 0 <-> forall i, (i < List.length ms)%nat -> succeeded ms i = false).
+Proof. exact fast_errs_iff. Qed.
+Print Assumptions C17_fast_errs_iff_every_member_fails.
+
+(* Race: the first response, success or not, at step 1; the others are cancelled at step 1 *)
+Theorem C17_race_contract : forall ms i q, is_perm (i :: q) (List.length ms) ->
+  let x := exec ARace ms (i :: q) in
+  x_ret x = RSingle (msg_of i (out_at ms i)) (Z.of_nat i) (err_of i (out_at ms i)) /\
+  x_retstep x = 1 /\ x_cancel x = 1 /\
+  (forall j, (j < List.length ms)%nat -> aware_at ms j = true -> j <> i -> nth j (x_saw x) 0 = 1) /\
+  x_leak x = 0 /\ x_calls x = all_calls ms.
+Proof. exact race_props. Qed.
+Print Assumptions C17_race_contract.
+
+(* Execute(One|Fast|Race): the single result sits at the member's own index of a slice as long as
+   the group (an empty slice for an empty group) *)
+Theorem C17_execute_places_single_result : forall s ms order, is_perm order (List.length ms) ->
+  (s = 4 \/ s = 5 \/ s = 6) ->
+  let a := if s =? 4 then AOne else if s =? 5 then AFast else ARace in
+  exists msg idx err, x_ret (exec a ms order) = RSingle msg idx err /\
+    x_ret (exec (AExecute s) ms order) = RSlice (single_at ms idx msg) err.
+Proof. exact execute_single_placement. Qed.
+Print Assumptions C17_execute_places_single_result.
+
+(* never panics: any API, any members (aware or not), any release sequence whatever *)
+Theorem C17_never_panics : forall a ms order, x_ret (exec a ms order) <> RPanic.
+Proof. exact exec_never_panics. Qed.
+Print Assumptions C17_never_panics.
+
+(* every goroutine executeEach starts ends once the members have returned, on every schedule:
+   the channel has room for every member (cap = n, the code after the fix), whatever the caller's
+   early-return rule; also for any capacity when the caller never leaves its loop (ExecuteUpTo) *)
+Theorem C17_goroutines_end : forall cap stop n s,
+  (n <= cap \/ forall l, stop l = false)%nat ->
+  reachable cap stop n s -> members_returned s -> inevitably cap stop ended s.
+Proof. exact goroutines_end. Qed.
+Print Assumptions C17_goroutines_end.
+
+(* the model satisfies the property predicate on every guarded input, and so does every
+   observation that agrees with the model *)
+Theorem C17_model_ok : forall a ms order,
+  perm_b order (List.length ms) = true -> (upto_api a = true -> plain_b ms = true) ->
+  C17_ok (KRun a ms order (exec a ms order)) = true.
+Proof. exact model_ok. Qed.
+Print Assumptions C17_model_ok.
+
+Theorem C17_judge_sound : forall a ms order obs,
+  C17_guard (KRun a ms order obs) = true -> (upto_api a = true -> plain_b ms = true) ->
+  agrees (KRun a ms order obs) = true -> C17_ok (KRun a ms order obs) = true.
+Proof. exact judge_sound. Qed.
+Print Assumptions C17_judge_sound.
+
+(* ---- the code before the two fix commits ---- *)
+(* Execute(One|Fast|Race, no members) indexed an empty slice *)
 Theorem C17_never_panics_v0_refuted :
   x_ret (exec_v0 (AExecute 4) [] []) = RPanic /\ x_ret (exec_v0 (AExecute 5) [] []) = RPanic /\
   x_ret (exec_v0 (AExecute 6) [] []) = RPanic.
-Proof. vm_compute. auto. Qed.
-Print Assumptions C17_never_panics_v0_refuted.
+Proof. exact exec_v0_panics_on_empty. Qed.
+
+(* unbuffered channel: ExecuteFast with three successes leaves two senders and the closer behind,
+   ExecuteRace with two members one sender and the closer *)
+Theorem C17_goroutines_end_v0_refuted :
+  (exists s, reachable 0 race_stop 2 s /\ members_returned s /\ ~ ended s /\
+             (forall s', ~ pstep 0 race_stop s s') /\ ~ inevitably 0 race_stop ended s) /\
+  x_leak (exec_v0 AFast [mkM Ok false; mkM Ok false; mkM Ok false] [0; 1; 2]%nat) = 3 /\
+  x_leak (exec_v0 ARace [mkM Fail false; mkM Ok false] [0; 1]%nat) = 2.
+Proof. split; [exact goroutines_end_v0_refuted|exact exec_v0_leaks]. Qed.
+
+(* ---- non-vacuity ---- *)
+Example C17_nonvacuous_most :
+  let ms := [mkM Fail false; mkM Ok false; mkM FailMsg false; mkM Fail false; mkM Ok false] in
+  let order := [4; 2; 0; 3; 1]%nat in
+  all_plain ms /\ is_perm order (List.length ms) /\
+  exec (AExecute 2) ms order = mkRes (RSlice [0; 2; -3; 0; 5] 3) [0; 1; 2; 3; 4] 4 5 [-1; -1; -1; -1; -1] 0 /\
+  decision_step 2 ms order 4.
+Proof.
+  cbv zeta. split; [|split; [|split]].
+  - apply plain_b_sound. reflexivity.
+  - apply perm_b_sound. reflexivity.
+  - reflexivity.
+  - split; [simpl; lia|]. split; [reflexivity|].
+    intros [|[|[|[|c']]]] Hc; try lia; vm_compute; discriminate.
+Qed.
+
+Example C17_nonvacuous_fast_aware :
+  let ms := [mkM Fail true; mkM Ok true; mkM Ok false; mkM Fail true] in
+  is_perm [0; 2; 3; 1]%nat (List.length ms) /\ first_in (succeeded ms) [0; 2; 3; 1]%nat 2%nat /\
+  exec (AExecute 5) ms [0; 2; 3; 1]%nat = mkRes (RSlice [0; 0; 3; 0] 0) [0; 1; 2; 3] 2 2 [-1; 2; -1; 2] 0.
+Proof.
+  cbv zeta. split; [apply perm_b_sound; reflexivity|]. split; [|reflexivity].
+  exists [0%nat], [3; 1]%nat. split; [reflexivity|]. split; [|reflexivity].
+  intros j [<-|[]]. reflexivity.
+Qed.
+
+Example C17_nonvacuous_goroutines :
+  exists s, reachable 2 race_stop 2 s /\ members_returned s /\ ~ ended s.
+Proof.
+  exists (mkP [MSend; MSend] [] [] true false). split; [|split].
+  - eapply reach_step; [eapply reach_step; [apply reach_init|]|].
+    + apply (PRet 2 race_stop (proc_init 2) 0). reflexivity.
+    + apply (PRet 2 race_stop (mkP [MSend; MRun] [] [] true false) 1). reflexivity.
+  - reflexivity.
+  - intros [E _]. discriminate.
+Qed.
